@@ -7,6 +7,8 @@ package main
 
 import (
 	"fmt"
+	"github.com/deadsy/sdfx/vec/v2i"
+	"github.com/deadsy/sdfx/vec/v3i"
 	"math"
 
 	"github.com/deadsy/sdfx/sdf"
@@ -158,5 +160,153 @@ func c02Fold(c *Ctx) {
 		if blended {
 			c.Distinct(fmt.Sprintf("blendfold/%dd/%s/%d/%d/%d", dim, mf.name, nOps, mode, i%7))
 		}
+	})
+}
+
+// c02LateBlend: construction-order equivalence. The same operands are combined twice: once the blend is installed on the
+// union / difference before it is wrapped into another combinator, once after the whole expression has been built. Nothing
+// may be computed from the unblended node at construction time and kept: both expressions must evaluate bit-identically.
+func c02LateBlend(c *Ctx) {
+	n := c.Pick(900, 9000)
+	parallelFor(n, func(i int) {
+		r := c.Rng("lateblend", i)
+		scale := r.LogR(0.1, 50)
+		k := scale * r.LogR(0.05, 2)
+		dim := 3 - i%2
+		// everything random is drawn once; build() is a pure function of these draws
+		x3, y3 := leaf3(r, scale), leaf3(r, scale)
+		x2, y2 := leaf2(r, scale), leaf2(r, scale)
+		off3 := v3.Vec{X: r.R(-1, 1) * scale, Y: r.R(-1, 1) * scale, Z: r.R(-1, 1) * scale}
+		off2 := v2.Vec{X: off3.X, Y: off3.Y}
+		useDiff := r.P(0.3)
+		wrap := r.I(12)
+		h3 := v3.Vec{X: scale * r.R(0.2, 1.5), Y: scale * r.R(0.2, 1.5), Z: scale * r.R(0.2, 1.5)}
+		ang := r.R(0.1, 6.2)
+		d := scale * r.R(0.05, 0.4)
+		m3, _ := rigid3(r, scale)
+		m2, _ := rigid2(r, scale)
+		other3 := sdf.Transform3D(leaf3(r, scale).s3, sdf.Translate3d(v3.Vec{X: 2.5 * scale}))
+		other2 := sdf.Transform2D(leaf2(r, scale).s2, sdf.Translate2d(v2.Vec{X: 2.5 * scale}))
+		wname := ""
+		build := func(blendFirst bool) (s2 sdf.SDF2, s3 sdf.SDF3, later func()) {
+			later = func() {}
+			if dim == 3 {
+				b := sdf.Transform3D(y3.s3, sdf.Translate3d(off3))
+				var node sdf.SDF3
+				var set func()
+				if useDiff {
+					dn := sdf.Difference3D(x3.s3, b).(*sdf.DifferenceSDF3)
+					node, set = dn, func() { dn.SetMax(sdf.PolyMax(k)) }
+				} else {
+					un := sdf.Union3D(x3.s3, b).(*sdf.UnionSDF3)
+					node, set = un, func() { un.SetMin(sdf.PolyMin(k)) }
+				}
+				if blendFirst {
+					set()
+				} else {
+					later = set
+				}
+				switch wrap {
+				case 0:
+					s3, wname = sdf.Elongate3D(node, h3), "Elongate3D"
+				case 1:
+					s3, wname = sdf.Transform3D(node, m3), "Transform3D"
+				case 2:
+					s3, wname = sdf.Offset3D(node, d), "Offset3D"
+				case 3:
+					s3, _ = sdf.Shell3D(node, d)
+					wname = "Shell3D"
+				case 4:
+					s3, wname = sdf.Array3D(node, v3i.Vec{X: 2, Y: 2, Z: 1}, h3.MulScalar(3)), "Array3D"
+				case 5:
+					s3, wname = sdf.RotateCopy3D(sdf.Transform3D(node, sdf.Translate3d(v3.Vec{X: 3 * scale})), 5), "RotateCopy3D"
+				case 6:
+					s3, wname = sdf.RotateUnion3D(sdf.Transform3D(node, sdf.Translate3d(v3.Vec{X: 3 * scale})), 4, sdf.RotateZ(ang)), "RotateUnion3D"
+				case 7:
+					s3, wname = sdf.Cut3D(node, v3.Vec{}, v3.Vec{X: 1, Y: 0.3, Z: -0.2}), "Cut3D"
+				case 8:
+					s3, wname = sdf.Intersect3D(node, other3), "Intersect3D"
+				case 9:
+					s3, wname = sdf.Difference3D(node, other3), "Difference3D"
+				case 10:
+					s3, wname = sdf.ScaleUniform3D(node, 1.7), "ScaleUniform3D"
+				default:
+					s3, wname = sdf.Union3D(node, other3), "Union3D"
+				}
+				return
+			}
+			b := sdf.Transform2D(y2.s2, sdf.Translate2d(off2))
+			var node sdf.SDF2
+			var set func()
+			if useDiff {
+				dn := sdf.Difference2D(x2.s2, b).(*sdf.DifferenceSDF2)
+				node, set = dn, func() { dn.SetMax(sdf.PolyMax(k)) }
+			} else {
+				un := sdf.Union2D(x2.s2, b).(*sdf.UnionSDF2)
+				node, set = un, func() { un.SetMin(sdf.PolyMin(k)) }
+			}
+			if blendFirst {
+				set()
+			} else {
+				later = set
+			}
+			switch wrap {
+			case 0:
+				s2, wname = sdf.Elongate2D(node, v2.Vec{X: h3.X, Y: h3.Y}), "Elongate2D"
+			case 1:
+				s2, wname = sdf.Transform2D(node, m2), "Transform2D"
+			case 2:
+				s2, wname = sdf.Offset2D(node, d), "Offset2D"
+			case 3:
+				s2, wname = sdf.Array2D(node, v2i.Vec{X: 2, Y: 3}, v2.Vec{X: 3 * h3.X, Y: 3 * h3.Y}), "Array2D"
+			case 4:
+				s2, wname = sdf.RotateCopy2D(sdf.Transform2D(node, sdf.Translate2d(v2.Vec{X: 3 * scale})), 5), "RotateCopy2D"
+			case 5:
+				s2, wname = sdf.RotateUnion2D(sdf.Transform2D(node, sdf.Translate2d(v2.Vec{X: 3 * scale})), 4, sdf.Rotate2d(ang)), "RotateUnion2D"
+			case 6:
+				s2, wname = sdf.Cut2D(node, v2.Vec{}, v2.Vec{X: 1, Y: 0.3}), "Cut2D"
+			case 7:
+				s3, wname = sdf.Extrude3D(node, h3.Z), "Extrude3D"
+			case 8:
+				s3, wname = sdf.TwistExtrude3D(node, h3.Z, ang), "TwistExtrude3D"
+			case 9:
+				s3, wname = sdf.ScaleExtrude3D(node, h3.Z, v2.Vec{X: 0.6, Y: 1.4}), "ScaleExtrude3D"
+			case 10:
+				s2, wname = sdf.Intersect2D(node, other2), "Intersect2D"
+			default:
+				s2, wname = sdf.Union2D(node, other2), "Union2D"
+			}
+			return
+		}
+		e2, e3, _ := build(true)
+		l2, l3, later := build(false)
+		if e2 == nil && e3 == nil || l2 == nil && l3 == nil {
+			return
+		}
+		later()
+		c.Eval(1)
+		for q := 0; q < 120; q++ {
+			var a, b float64
+			var p any
+			if l3 != nil {
+				pp := samplePoint3(r, l3.BoundingBox(), nil)
+				if q%3 == 0 { // near the origin of the node: cores of elongations, axes of copies
+					pp = v3.Vec{X: r.N() * 0.3 * scale, Y: r.N() * 0.3 * scale, Z: r.N() * 0.3 * scale}
+				}
+				a, b, p = l3.Evaluate(pp), e3.Evaluate(pp), pp
+			} else {
+				pp := samplePoint2(r, l2.BoundingBox(), nil)
+				if q%3 == 0 {
+					pp = v2.Vec{X: r.N() * 0.3 * scale, Y: r.N() * 0.3 * scale}
+				}
+				a, b, p = l2.Evaluate(pp), e2.Evaluate(pp), pp
+			}
+			if math.Float64bits(a) != math.Float64bits(b) && !(math.IsNaN(a) && math.IsNaN(b)) {
+				c.Violate("", fmt.Sprintf("construction-order %s around a %dD %s: blend installed after wrapping gives %.17g, before wrapping %.17g at p=%v",
+					wname, dim, map[bool]string{true: "difference+PolyMax", false: "union+PolyMin"}[useDiff], a, b, p), map[string]any{"wrapper": wname, "index": i, "p": p})
+				return
+			}
+		}
+		c.Distinct(fmt.Sprintf("lateblend/%d/%s/%v", dim, wname, useDiff))
 	})
 }
